@@ -207,7 +207,7 @@ func TestC11Log(t *testing.T) {
 type C12ExitCase struct {
 	Arrival string `json:"arrival"` // io | curl
 	Lines   int    `json:"lines"`
-	EndBy   string `json:"end_by"` // client exit-command
+	EndBy   string `json:"end_by"`            // client exit-command
 	HoldMs  int    `json:"hold_ms,omitempty"` // idle time after the listener closed
 }
 
